@@ -436,6 +436,121 @@ pub fn check(c: &Case) -> Verdict {
     Verdict::pass_c(Some(fp_json(c)), classes)
 }
 
+// ---------------------------------------------------------------------------
+// realtime-signal storm during attach (sampled interleavings of signal arrival with attach)
+// ---------------------------------------------------------------------------
+
+#[derive(Debug, Clone, PartialEq, Eq, Hash, Serialize, Deserialize)]
+pub struct StormCase {
+    pub sleepers: u8,
+    pub dumps: u8,
+    /// which realtime slot (2..5) is fired
+    pub slot: u8,
+}
+
+pub fn check_storm(c: &StormCase) -> Verdict {
+    use std::sync::atomic::AtomicBool;
+    init_scratch();
+    let scratch = Target::new_scratch();
+    let mut b = Builder::new();
+    let mut ids = vec![];
+    for i in 0..(c.sleepers % 3 + 1) {
+        ids.push(b.add_thread(K_SLEEPER, Some(format!("s{i}").into_bytes()), 0, i as u64));
+    }
+    let spec = b.spec.clone();
+    let t = match Target::spawn(&spec, scratch) {
+        Ok(t) => t,
+        Err(e) => return Verdict::Inconclusive(format!("target setup: {}", e.split(':').next().unwrap_or(""))),
+    };
+    if !t.wait_settled(&spec) {
+        return Verdict::Inconclusive("target did not settle".into());
+    }
+    let pid = t.pid;
+    let sleepers: Vec<(u32, i32)> = ids.iter().map(|id| (*id, t.tid(*id))).collect();
+    let slot = 2 + c.slot % 4;
+    let stop = Arc::new(AtomicBool::new(false));
+    let sent: Arc<Vec<AtomicU64>> = Arc::new((0..sleepers.len()).map(|_| AtomicU64::new(0)).collect());
+    let storm = {
+        let stop = stop.clone();
+        let sent = sent.clone();
+        let sl = sleepers.clone();
+        std::thread::spawn(move || {
+            let mut i = 0usize;
+            while !stop.load(Ordering::SeqCst) {
+                let k = i % sl.len();
+                if send_signal(pid, sl[k].1, slot, 1) {
+                    sent[k].fetch_add(1, Ordering::SeqCst);
+                }
+                i += 1;
+                if i % 64 == 0 {
+                    std::thread::yield_now();
+                }
+            }
+        })
+    };
+    let opts = DumpOpts { blamed: pid, ..Default::default() };
+    let n_dumps = c.dumps as usize % 24 + 8;
+    let mut wait_errors = 0u64;
+    for _ in 0..n_dumps {
+        let mut w = make_writer(pid, &opts);
+        let mut dest = Dest::new(vec![], 0);
+        // the process is not group-stopped, so that threads take signals while being attached
+        match with_failspots(FS_STOP, || run_dump(&mut w, &mut dest)) {
+            DumpOutcome::Panic(l, m) => {
+                stop.store(true, Ordering::SeqCst);
+                let _ = storm.join();
+                return panic_verdict(&l, &m);
+            }
+            DumpOutcome::Ok(img) => {
+                let d = crate::vcore::md::decode(&img);
+                if let Ok(se) = crate::props::c11::soft_errors_of(&img, &d) {
+                    let mut flat = std::collections::BTreeMap::new();
+                    crate::props::c11::flatten(&se, "", &mut flat);
+                    wait_errors += flat.keys().filter(|k| k.contains("WaitPidError")).count() as u64;
+                }
+            }
+            DumpOutcome::Err(_) => {}
+        }
+    }
+    stop.store(true, Ordering::SeqCst);
+    let _ = storm.join();
+    count("storm-dumps", n_dumps as u64);
+    count("storm-signals-sent", sent.iter().map(|s| s.load(Ordering::SeqCst)).sum());
+    // drain: every queued signal must arrive
+    let deadline = Instant::now() + Duration::from_millis(3000);
+    loop {
+        let mut short = None;
+        for (k, (id, tid)) in sleepers.iter().enumerate() {
+            let s = sent[k].load(Ordering::SeqCst);
+            let d = t.sigcount(*id, slot as usize);
+            if d > s {
+                return Verdict::viol("C03:signal-duplicated", format!("thread {tid}: sent {s}, delivered {d}"));
+            }
+            if d < s {
+                short = Some((*tid, s, d));
+            }
+        }
+        match short {
+            None => break,
+            Some((tid, s, d)) => {
+                if Instant::now() > deadline {
+                    let signo = signo_of(slot);
+                    if pending_mask(pid, tid) & (1u64 << (signo - 1)) != 0 {
+                        return Verdict::Inconclusive("realtime signals still pending at the deadline".into());
+                    }
+                    let sig = if wait_errors > 0 { "C03:signal-lost:attach-wait-error" } else { "C03:signal-lost" };
+                    return Verdict::viol(sig, format!("realtime signal {signo} to thread {tid} while it was being dumped {n_dumps} times: sent {s}, delivered {d}, nothing pending; {wait_errors} WaitPidError soft errors were reported by those dumps"));
+                }
+                std::thread::sleep(Duration::from_micros(500));
+            }
+        }
+    }
+    if let Err((sig, d)) = judge_alive(&t, &sleepers.iter().map(|(id, tid)| (*id, *tid, K_SLEEPER)).collect::<Vec<_>>(), &spec, &[]) {
+        return Verdict::viol(format!("C03:{sig}"), format!("after the storm: {d}"));
+    }
+    Verdict::pass_c(Some(fp_json(c)), vec![format!("wait-errors:{}", wait_errors.min(3))])
+}
+
 pub fn case_strategy() -> impl Strategy<Value = Case> {
     let phase = prop_oneof![
         Just(Phase::BeforeDump),
@@ -485,10 +600,22 @@ pub fn run(ctx: &mut LaneCtx) {
         },
         check,
     );
+    ctx.run_sub(
+        SubSpec {
+            name: "rt-signal-storm",
+            cases: (32, 1_500),
+            rule: "1..3 sleeper threads bombarded with a queued realtime signal from a harness thread while 8..31 dumps are taken with the process not group-stopped (StopProcess fail point), so that signals arrive at arbitrary instants of attach/wait/detach (sampled, not owned, interleavings); oracle = every successfully queued signal is delivered exactly once after the storm, threads alive; every case non-trivial; distinct = hash of case",
+            strategy: (0u8..3, any::<u8>(), 0u8..4).prop_map(|(sleepers, dumps, slot)| StormCase { sleepers, dumps, slot }).boxed(),
+            max_shrink_iters: 0,
+            log_current: true,
+        },
+        check_storm,
+    );
 }
 
 pub fn replay(sub: &str, case: &Value) -> Verdict {
     match sub {
+        "rt-signal-storm" => replay_case::<StormCase>(case, check_storm),
         "faults-and-signals" => replay_case::<Case>(case, check),
         _ => Verdict::Inconclusive(format!("unknown sub {sub}")),
     }
